@@ -87,11 +87,23 @@ def render_call(d):
     return "pub fn call(ep: &str, inp: &Value) -> (Value, Value) {\n    match ep {\n        %s\n    }\n}\n" % ",\n        ".join(arms)
 
 
+def render_variant_match(d):
+    """C07: the generated error enum has exactly one variant per declared validator.
+    An exhaustive match without wildcard over exactly those variants fails to compile
+    (E0004 / E0599) when a variant is missing or extra."""
+    if d["vmode"] != "std":
+        return ""
+    from .names import VARIANT
+    arms = " ".join("NtError::%s => %d," % (VARIANT[r["k"]], i) for i, r in enumerate(d["val"]))
+    return "pub fn variant_index(e: &NtError) -> usize { match e { %s } }\n" % arms
+
+
 def render_module(d):
     src = PRELUDE + render_decl_only(d)
     inner = inner_type(d).replace("T", "i32") if d.get("gen_decl") else inner_type(d)
     src += "pub type Inner = %s;\n" % inner
     src += "pub type NtC = Nt%s;\n" % d.get("gen_use", "")
+    src += render_variant_match(d)
     src += render_call(d)
     return src
 
